@@ -81,6 +81,21 @@ pub fn programs(tier: Tier) -> Vec<Prog> {
                   ("annotated", "a<u8> := 5\nb<u8> := 6\nc := a + b"), ("annotated-matrix", "a<[i16]> := [1 2 3]\nb := a + a")] {
     v.push(Prog { text: t.into(), family: format!("program:{}", nm), must_run: true });
   }
+  // (5b) systematic constant families: every matrix literal shape up to 6x4 (bare and bound: each row count is its own
+  // n-ary concatenation instruction) and string constants over every UTF-8 width, scalar and in matrices
+  for r in 1..=6usize { for c in 1..=4usize {
+    let vals: Vec<String> = (0..r * c).map(|i| format!("{}", i + 1)).collect();
+    let lit = c01::matrix_literal(&vals, r, c);
+    v.push(Prog { text: format!("x := {}", lit), family: format!("matrix-literal:bound:{}x{}", r, c), must_run: true });
+    v.push(Prog { text: lit.clone(), family: format!("matrix-literal:bare:{}x{}", r, c), must_run: true });
+    v.push(Prog { text: format!("a := 10\nx := {}", lit.replacen("1", "a", 1)), family: format!("matrix-literal:with-variable:{}x{}", r, c), must_run: true });
+  } }
+  let strs = ["", "a", "hello world", "é", "héllo", "日", "日本語", "😀", "a😀é日", "tab\\tq", "x y  z"];
+  for (i, t) in strs.iter().enumerate() {
+    v.push(Prog { text: format!("x := \"{}\"", t), family: format!("string-constant:scalar:{}", i), must_run: true });
+    v.push(Prog { text: format!("x := [\"{}\" \"k\"]", t), family: format!("string-constant:matrix:{}", i), must_run: true });
+    v.push(Prog { text: format!("a := \"{}\"\nb := \"{}\"\nc := a == b", t, t), family: format!("string-constant:compare:{}", i), must_run: true });
+  }
   // (6) class B: may fail, must not lie
   for (nm, t) in [
     ("matrix-literal", "x := [1 2; 3 4]"), ("matrix-of-vars", "a := 1\nb := 2\nx := [a b; b a]"), ("matrix-4rows", "x := [1; 2; 3; 4]"), ("matrix-4rows-bare", "[1; 2; 3; 4]"), ("matrix-5rows", "x := [1; 2; 3; 4; 5]"), ("matrix-2x4", "x := [1 2 3 4; 5 6 7 8]"),
@@ -156,7 +171,7 @@ fn fam_key(f: &str) -> String {
 impl Check for C06 {
   fn id(&self) -> &'static str { "C06" }
   fn level(&self) -> &'static str { "exploration" }
-  fn unit_budget(&self, _t: Tier) -> Duration { Duration::from_secs(10) }
+  fn unit_budget(&self, _t: Tier) -> Duration { Duration::from_secs(4) }
   fn drive(&mut self, tier: Tier, cfg: &PoolCfg, rep: &mut Report) {
     let n = self.progs.len() as u64;
     rep.rule = format!("{} generated programs: every elementwise operator x 16 kinds x every compatible form pair over {} shapes (distinct operands), index reads (1-D and all 2-D form pairs) and indexed (op-)assignments on f64/u8/string/bool/i64 matrices, ranges of every numeric kind, literal spellings, variable chains (class A: must compile, load and run) \
